@@ -263,6 +263,51 @@ def cases_for(ctx: Ctx) -> t.List[dict]:
         post = rand_filter(rng, True) if rng.random() < 0.7 else None
         cases.append(mk_case(gen_rows(rng), mk_ops(rand_part(rng), order, None), fn, mode=rng.choice(["select", "withColumn"]), pre=pre, post=post, origin="chain-anywhere"))
 
+    # (8) TIED order keys under ROWS frames (and the other tie-dependent functions), compared tie-safely:
+    #     when the aggregated column is one of the order keys (or the function only depends on the position),
+    #     the multiset of (partition key, order key, value) per table does not depend on the order of ties
+    for _ in range(reps):
+        for s, e in frame_pairs():
+            for fn in rng.sample([["count", "id"], ["min", "v"], ["max", "v"], ["sum", "v"], ["count", "v"], ["last", "v"], ["first", "v"]], 3):
+                rows = gen_rows(rng, n=rng.choice([4, 5, 6, 7]))
+                cases.append(mk_case(rows, mk_ops(rand_part(rng), [("v", rng.choice(EXPLICIT))], ("rowsBetween", s, e)), fn, origin="ties-rows-frames"))
+        for s, e in [(UP, 0), (UP, 0), (-1, 0), (UP, UF), (0, UF), (0, 1)]:
+            cases.append(mk_case(gen_rows(rng, n=rng.choice([4, 5, 6])), mk_ops(rng.choice([["g"], ["h"], []]), [], ("rowsBetween", s, e)), ["count", "id"], origin="ties-rows-no-order"))
+        for fn in [["row_number"], ["ntile", 2], ["ntile", 3], ["lag", "v", 1, None], ["lead", "v", 1, -7], ["first", "v"], ["last", "v"]]:
+            cases.append(mk_case(gen_rows(rng, n=rng.choice([4, 5, 6, 7])), mk_ops(rand_part(rng), [("v", rng.choice(EXPLICIT))], None), fn, origin="ties-position-functions"))
+
+    # (9) a second rowsBetween / rangeBetween replaces the frame stored by an earlier one (also when the
+    #     second frame is UNBOUNDED PRECEDING .. CURRENT ROW, i.e. what an engine applies by default)
+    for _ in range(reps):
+        for k1 in ("rowsBetween", "rangeBetween"):
+            for k2 in ("rowsBetween", "rangeBetween"):
+                for s2, e2 in [(UP, 0), (UP, UF), (-1, 0), (0, 1)]:
+                    s1, e1 = rng.choice([p for p in frame_pairs() if p != (s2, e2)])
+                    offs2 = any(b not in (UP, UF, 0) for b in (s2, e2))
+                    if k2 == "rowsBetween":
+                        order = [("v", rng.choice(EXPLICIT)), ("id", "asc")]
+                    else:
+                        order = [("v", rng.choice(EXPLICIT))] if offs2 else [("v", rng.choice(EXPLICIT)), ("u", "desc")]
+                    ops = mk_ops(rand_part(rng), order, (k1, s1, e1)) + [{"op": k2, "s": s2, "e": e2}]
+                    cases.append(mk_case(gen_rows(rng, n=rng.choice([4, 5, 6])), ops, [rng.choice(["sum", "count", "max"]), "x"], origin="chain-frame-replaced-2"))
+
+    # (10) ONE WindowSpec object passed to .over() several times before any of the Columns is used
+    for _ in range(24 * reps):
+        rows = gen_rows(rng, n=rng.choice([3, 4, 5, 6]))
+        part = rand_part(rng)
+        if rng.random() < 0.6:
+            order = rand_order(rng, unique=True, bare_p=0.0)
+            pool = [["sum", "x"], ["max", "x"], ["min", "v"], ["count", "x"], ["row_number"], ["rank"], ["dense_rank"], ["lag", "x", 1, None], ["lead", "x", 1, 0], ["ntile", 2], ["first", "x"], ["last", "x"], ["cume_dist"], ["avg", "x"]]
+            ops = mk_ops(part, order, None)
+        else:
+            s, e = rng.choice(frame_pairs())
+            pool = [["sum", "x"], ["max", "x"], ["min", "v"], ["count", "x"], ["count", "v"], ["first", "x"], ["last", "x"], ["avg", "x"]]
+            ops = mk_ops(part, rand_order(rng, unique=True, bare_p=0.0), ("rowsBetween", s, e))
+        fns = rng.sample(pool, rng.choice([2, 3, 3, 4]))
+        c = mk_case(rows, ops, fns[0], mode=rng.choice(["select", "select", "withColumn"]), pre=rand_filter(rng, False) if rng.random() < 0.3 else None, origin="shared-spec-multi-column")
+        c["more"] = fns[1:]
+        cases.append(c)
+
     # (7) random specs
     n_rand = 2500 if ctx.thorough else 260
     kinds = ["row_number", "rank", "dense_rank", "percent_rank", "cume_dist", "ntile", "lag", "lead"] + AGGS
@@ -338,13 +383,21 @@ def fn_to_lean(fn: list) -> t.Tuple[t.Any, t.Any]:
     raise ValueError(k)
 
 
-def case_to_lean(i: int, c: dict) -> dict:
-    wf, rf = fn_to_lean(c["fn"])
+def all_fns(c: dict) -> t.List[list]:
+    return [c["fn"]] + [list(f) for f in (c.get("more") or [])]
+
+
+def col_names(c: dict) -> t.List[str]:
+    return ["w"] + [f"w{k}" for k in range(1, len(all_fns(c)))]
+
+
+def case_to_lean(i: int, c: dict, fn: t.Optional[list] = None, name: str = "w") -> dict:
+    wf, rf = fn_to_lean(fn if fn is not None else c["fn"])
     d: t.Dict[str, t.Any] = {
         "case": i,
         "table": X.table_to_lean(list(c["schema"]), c["rows"]),
         "ops": [op_to_lean(o) for o in c["ops"]],
-        "name": "w",
+        "name": name,
     }
     if wf is not None:
         d["fn"] = wf
@@ -396,8 +449,15 @@ def show_case(c: dict) -> str:
     s = f"df{list(c['schema'])}{c['rows']}"
     if c.get("pre"):
         s += f".where({X.show(tuple_(c['pre']))})"
-    w = f"{show_fn(c['fn'])}.over({show_ops(c['ops'])})"
-    s += f".withColumn('w', {w})" if c.get("mode") == "withColumn" else f".select('*', {w}.alias('w'))"
+    if c.get("more"):
+        s = f"spec = {show_ops(c['ops'])}; cols = [" + ", ".join(f"{show_fn(f)}.over(spec)" for f in all_fns(c)) + "]; " + s
+        if c.get("mode") == "withColumn":
+            s += "".join(f".withColumn({n!r}, cols[{k}])" for k, n in enumerate(col_names(c)))
+        else:
+            s += ".select('*', " + ", ".join(f"cols[{k}].alias({n!r})" for k, n in enumerate(col_names(c))) + ")"
+    else:
+        w = f"{show_fn(c['fn'])}.over({show_ops(c['ops'])})"
+        s += f".withColumn('w', {w})" if c.get("mode") == "withColumn" else f".select('*', {w}.alias('w'))"
     if c.get("post"):
         s += f".where({X.show(tuple_(c['post']))})"
     return s
@@ -514,16 +574,19 @@ def run_impl(c: dict) -> dict:
         w = build_spec(c["ops"], obs)
         out["clause"] = clause_of(w)
         before = w.expression.sql()
-        wcol = real_fn(F, c["fn"]).over(w)
-        obs.append({"op": "over", "receiver_unchanged": w.expression.sql() == before, "fresh_object": wcol.expression is not w.expression})
+        # every Column is built from the ONE spec object before any of them is used
+        wcols = [real_fn(F, f).over(w) for f in all_fns(c)]
+        names = col_names(c)
+        obs.append({"op": "over", "receiver_unchanged": w.expression.sql() == before, "fresh_object": all(x.expression is not w.expression for x in wcols)})
         out["obs"] = obs
         df = X.make_df(session(), c["schema"], c["rows"])
         if c.get("pre"):
             df = df.where(X.to_column(tuple_(c["pre"]), F))
         if c.get("mode") == "withColumn":
-            df = df.withColumn("w", wcol)
+            for n, wc in zip(names, wcols):
+                df = df.withColumn(n, wc)
         else:
-            df = df.select(*[F.col(n) for n in c["schema"]], wcol.alias("w"))
+            df = df.select(*[F.col(n) for n in c["schema"]], *[wc.alias(n) for n, wc in zip(names, wcols)])
         if c.get("post"):
             df = df.where(X.to_column(tuple_(c["post"]), F))
         out["cols"] = list(df.columns)
@@ -546,7 +609,39 @@ def run_impl(c: dict) -> dict:
 
 
 def tie_dependent(c: dict) -> bool:
-    k = c["fn"][0]
+    return any(tie_dependent_fn(c, f) for f in all_fns(c))
+
+
+def tie_safe_projection(c: dict) -> t.Optional[t.List[str]]:
+    """columns on which a tie-dependent case can still be compared as a multiset: the sequence of order-key
+    tuples along a sorted partition does not depend on how ties are broken, so when every function is a
+    function of the position and of order-key columns only, the multiset of (partition key, order key, value)
+    is determined by the data"""
+    if c.get("more") or c.get("post"):
+        return None
+    parts = [o for o in c["ops"] if o["op"] == "partitionBy"]
+    orders = [o for o in c["ops"] if o["op"] == "orderBy"]
+    if len(parts) > 1 or len(orders) > 1:
+        return None
+    pk = list(parts[0]["cols"]) if parts else []
+    ks = [n for n, _ in orders[0]["keys"]] if orders else []
+    fn = c["fn"]
+    k = fn[0]
+    if k in ("row_number", "ntile"):
+        ok = True
+    elif k == "count" and fn[1] == "id":
+        ok = True  # the id is never NULL: count(id) is the frame size
+    elif k in ("lag", "lead"):
+        ok = fn[1] in ks  # the default is a constant: the value is a function of the position
+    elif k in ("sum", "avg", "min", "max", "count", "first", "last"):
+        ok = fn[1] in ks
+    else:
+        ok = False
+    return (pk + [x for x in ks if x not in pk] + ["w"]) if ok else None
+
+
+def tie_dependent_fn(c: dict, fn: list) -> bool:
+    k = fn[0]
     if k in ("row_number", "ntile", "lag", "lead", "first", "last"):
         return True
     if k in ("rank", "dense_rank", "percent_rank", "cume_dist"):
@@ -587,14 +682,80 @@ def same(impl: dict, side: dict) -> bool:
     return all(len(x) == len(y) and all(cell_eq(p, q) for p, q in zip(x, y)) for x, y in zip(a, b))
 
 
+def canon_cell(v: t.Any) -> t.Any:
+    if v is None:
+        return ("0",)
+    if isinstance(v, dict) and "q" in v:
+        return ("n", round(v["q"][0] / v["q"][1], 9)) if v["q"][1] else ("0",)
+    if isinstance(v, dict) and "f" in v:
+        return ("n", round(v["f"], 9))
+    if isinstance(v, dict) and "s" in v:
+        return ("s", v["s"])
+    if isinstance(v, bool):
+        return ("b", v)
+    return ("n", round(float(v), 9))
+
+
+def same_multiset(impl: dict, side: dict, cols: t.List[str]) -> bool:
+    """equality of the multisets of rows projected on `cols` (tie-safe comparison)"""
+    if "err" in impl or "err" in side:
+        return "err" in impl and "err" in side and impl["err"] == side["err"]
+    if impl["cols"] != side["cols"] or len(impl["rows"]) != len(side["rows"]):
+        return False
+    idx = [impl["cols"].index(n) for n in cols]
+    a = sorted(tuple(canon_cell(r[i]) for i in idx) for r in impl["rows"])
+    b = sorted(tuple(canon_cell(r[i]) for i in idx) for r in side["rows"])
+    return a == b
+
+
+def merge_sides(sides: t.List[dict]) -> dict:
+    """one table from the per-function driver outputs of a multi-column case (each column evaluated independently)"""
+    for sd in sides:
+        if "err" in sd:
+            return sd
+    if len(sides) == 1:
+        return sides[0]
+    rows = [list(r) for r in sides[0]["rows"]]
+    cols = list(sides[0]["cols"])
+    for sd in sides[1:]:
+        if len(sd["rows"]) != len(rows) or any(a[: len(sd["cols"]) - 1] != b[:-1] for a, b in zip(rows, sd["rows"])):
+            raise RuntimeError("driver outputs of a multi-column case do not line up")
+        cols.append(sd["cols"][-1])
+        for a, b in zip(rows, sd["rows"]):
+            a.append(b[-1])
+    return {"cols": cols, "rows": rows}
+
+
+def agree(r: dict, a: dict, b: dict) -> bool:
+    return same_multiset(a, b, r["proj"]) if r.get("proj") else same(a, b)
+
+
 def evaluate(cases: t.List[dict], workers: int = 0) -> t.List[dict]:
-    outs = vlib.run_driver("C08", [case_to_lean(i, c) for i, c in enumerate(cases)])
+    lean_cases: t.List[dict] = []
+    spans: t.List[t.Tuple[int, int]] = []
+    for c in cases:
+        a = len(lean_cases)
+        for fn, name in zip(all_fns(c), col_names(c)):
+            lean_cases.append(case_to_lean(len(lean_cases), c, fn, name))
+        spans.append((a, len(lean_cases)))
+    raw = vlib.run_driver("C08", lean_cases)
+    for o in raw:
+        if "err" in o and "model" not in o:
+            raise RuntimeError(f"driver rejected a case: {o}")
+    outs = []
+    for a, b in spans:
+        o = dict(raw[a])
+        if b - a > 1:
+            o["model"] = merge_sides([x["model"] for x in raw[a:b]])
+            o["spec"] = merge_sides([x["spec"] for x in raw[a:b]])
+            o["accepts"] = all(x["accepts"] for x in raw[a:b])
+        outs.append(o)
     impls = vlib.parallel_map(run_impl, cases, workers)
     res = []
     for c, o, impl in zip(cases, outs, impls):
-        if "err" in o and "model" not in o:
-            raise RuntimeError(f"driver rejected a case: {o}")
-        determined = (not tie_dependent(c)) or bool(o["unique"])
+        row_determined = (not tie_dependent(c)) or bool(o["unique"])
+        proj = None if row_determined else tie_safe_projection(c)
+        determined = row_determined or proj is not None
         clause_eq = ("clause" in impl and impl["clause"] == o["emit"]) or ("clause" not in impl and "err" in o["model"] and impl.get("err") == o["model"]["err"])
         r = {
             "case": c,
@@ -607,12 +768,13 @@ def evaluate(cases: t.List[dict], workers: int = 0) -> t.List[dict]:
             "scope": o["scope"],
             "accepts": o["accepts"],
             "determined": determined,
+            "proj": proj,
             "clause_eq": clause_eq,
         }
         # the implementation must be what the model says whenever the value is determined by the data
-        r["impl_eq_model"] = (not determined) or same(impl, o["model"])
+        r["impl_eq_model"] = (not determined) or agree(r, impl, o["model"])
         r["compared_spec"] = bool(determined and o["accepts"] and "err" not in o["spec"])
-        r["impl_eq_spec"] = (not r["compared_spec"]) or same(impl, o["spec"])
+        r["impl_eq_spec"] = (not r["compared_spec"]) or agree(r, impl, o["spec"])
         # a builder call PySpark accepts must not raise
         if "err" not in o["spec"] and o["accepts"] and "err" in impl:
             r["compared_spec"] = True
@@ -635,6 +797,9 @@ def shrink(c: dict, failing: t.Callable[[dict], bool], rounds: int = 10) -> dict
             cands.append(dict(best, pre=None))
         if best.get("mode") == "withColumn":
             cands.append(dict(best, mode="select"))
+        more = best.get("more") or []
+        if len(more) > 1:
+            cands += [dict(best, more=more[:i] + more[i + 1 :]) for i in range(len(more))]
         cands += [dict(best, rows=best["rows"][:i] + best["rows"][i + 1 :]) for i in range(len(best["rows"])) if len(best["rows"]) > 1]
         cands += [dict(best, ops=best["ops"][:i] + best["ops"][i + 1 :]) for i in range(len(best["ops"])) if len(best["ops"]) > 1]
         if not cands:
@@ -808,7 +973,7 @@ def run_pyspark(cases: t.List[dict]) -> t.Optional[t.List[dict]]:
 
 
 def validate_spec_on_pyspark(ctx: Ctx, res: t.List[dict], limit: int) -> t.Dict[str, t.Any]:
-    pool = [r for r in res if r["accepts"] and r["determined"] and "err" not in r["spec"] and not r["case"].get("pre") and not r["case"].get("post")]
+    pool = [r for r in res if r["accepts"] and r["determined"] and "err" not in r["spec"] and not r["case"].get("pre") and not r["case"].get("post") and not r["case"].get("more")]
     ctx.rng.shuffle(pool)
     # keep every origin represented
     pool.sort(key=lambda r: r["case"].get("origin", ""))
@@ -825,7 +990,7 @@ def validate_spec_on_pyspark(ctx: Ctx, res: t.List[dict], limit: int) -> t.Dict[
             side = {"err": o["err"]}
         else:
             side = {"cols": o["cols"], "rows": [[enc(v) for v in row] for row in o["rows"]]}
-        if not same(side, r["spec"]):
+        if not agree(r, side, r["spec"]):
             bad += 1
             if first is None:
                 first = {"program": show_case(r["case"]), "pyspark": side, "specification": r["spec"]}
@@ -884,7 +1049,7 @@ def run(ctx: Ctx) -> None:
                     form_hist[f] = form_hist.get(f, 0) + 1
         origin_hist[c.get("origin", "?").split(":")[0]] = origin_hist.get(c.get("origin", "?").split(":")[0], 0) + 1
         if r["compared_spec"] and "rows" in r["impl"] and len({json.dumps(x[-1]) for x in r["impl"]["rows"]}) > 1:
-            nontrivial.add(vlib.digest([c["ops"], c["fn"], c["rows"], c.get("pre"), c.get("post")]))
+            nontrivial.add(vlib.digest([c["ops"], c["fn"], c.get("more"), c["rows"], c.get("pre"), c.get("post")]))
 
     clause_mismatch = [r for r in res if not r["clause_eq"]]
     model_mismatch = [r for r in res if not r["impl_eq_model"]]
@@ -967,13 +1132,16 @@ def run(ctx: Ctx) -> None:
             "evaluations": len(res),
             "distinct_nontrivial": len(nontrivial),
             "rule": "corpus; every frame kind x start x end (sentinels and offsets -2..2) x every aggregate; every order-key form x ranking / offset functions and default-frame aggregates; "
-            "no-ORDER-BY windows; sentinel-adjacent boundary integers; repeated builder calls; window column between filters; random specs. "
+            "no-ORDER-BY windows; sentinel-adjacent boundary integers; repeated builder calls (incl. a second rowsBetween/rangeBetween replacing the frame); window column between filters; "
+            "tied order keys under every ROWS frame and position functions (compared as multisets); one WindowSpec object passed to .over() 2-4 times before the Columns are used; random specs. "
             "non-trivial = distinct (spec, function, rows, filters) compared with the specification whose window column takes at least two different values",
             "traces_validated_against_impl": sum(r["impl_eq_model"] and r["clause_eq"] for r in res),
             "clause_ast_agree": sum(r["clause_eq"] for r in res),
             "compared_with_spec": sum(r["compared_spec"] for r in res),
             "impl_vs_spec_agree": sum(r["compared_spec"] and r["impl_eq_spec"] for r in res),
             "not_compared_tie_order_undetermined": sum(not r["determined"] for r in res),
+            "compared_tie_safely_as_multisets": sum(1 for r in res if r.get("proj")),
+            "multi_column_shared_spec_cases": sum(1 for r in res if r["case"].get("more")),
             "not_compared_pyspark_rejects": sum(not r["accepts"] for r in res),
             "out_of_scope_cases": sum(1 for r in res if r["scope"]),
             "implementation_errors": sum("err" in r["impl"] for r in res),
@@ -992,7 +1160,8 @@ def run(ctx: Ctx) -> None:
         "PySpark's meaning of the builder calls is Impl/C08Spec.lean `sparkDef` (python thresholds + JVM boundary mapping) over Impl/C08Window.lean (validated against live PySpark 3.5 in the thorough tier when the JVM starts; python-side constants compared on every run)",
         "sys.maxsize = 2^63-1 (compared with the running interpreter)",
         "percent_rank / cume_dist / avg are compared as exact ratios from the model against the engine's doubles (1e-12); no theorem is stated about them beyond the shared frame / rank definitions",
-        "values that depend on the order of tied rows (row_number, ntile, lag, lead, first, last, ROWS frames) are compared only when the order keys are unique within every partition",
+        "values that depend on the order of tied rows (row_number, ntile, lag, lead, first, last, ROWS frames) are compared row by row only when the order keys are unique within every partition; "
+        "with tied keys they are compared as multisets of (partition key, order key, value) when the function reads only order-key columns / the position (that multiset does not depend on the tie order)",
     ]
 
 
